@@ -581,6 +581,19 @@ func init() {
 		return nil
 	}
 	h["os.Getpid"] = func(fr *frame, args []value) value { return 4242 }
+	sprintFn := func(fr *frame, args []value) value {
+		return nativeFn(func(fr *frame, a []value) value {
+			var parts []value
+			for _, x := range a[0].([]value) {
+				parts = append(parts, fmtVerb(fr, 'v', "", x))
+			}
+			return symConcat(parts)
+		})
+	}
+	h["(*github.com/fatih/color.Color).SprintFunc"] = sprintFn
+	h["(*github.com/fatih/color.Color).SprintfFunc"] = func(fr *frame, args []value) value {
+		return nativeFn(func(fr *frame, a []value) value { return symSprintf(fr, a[0], a[1].([]value)) })
+	}
 	h["github.com/f1bonacc1/process-compose/src/pclog.Name2Color"] = func(fr *frame, args []value) value {
 		return nativeFn(func(fr *frame, a []value) value { return "" })
 	}
@@ -699,6 +712,29 @@ func harnessIntrinsic(fn *ssa.Function) nativeFn {
 				return !s.pendingTimers()
 			})
 			me.quiescing = false
+			return nil
+		}
+	case "verifSettle":
+		// block until every other eager (non-lazy) goroutine is blocked; lazy environment
+		// goroutines and timers are left pending
+		return func(fr *frame, args []value) value {
+			s := fr.i.R.S
+			me := s.cur
+			me.quiescing = true
+			me.settling = true
+			s.Block("settle", func() bool {
+				for _, t := range s.threads {
+					if t == me || t.done || t.quiescing || t.lazy {
+						continue
+					}
+					if t.ready == nil || t.ready() {
+						return false
+					}
+				}
+				return true
+			})
+			me.quiescing = false
+			me.settling = false
 			return nil
 		}
 	case "verifSymbolicMapOrder":
